@@ -61,9 +61,9 @@ var props = map[string]propMeta{
 	},
 	"C04": {
 		Level:       "exploration",
-		Rule:        "seeded runs with 1-8 inbound messages (mostly exactly-once) from the reference broker, which retransmits PUBLISH (DUP) and PUBREL on reconnect; breaks after client acknowledgements were written but before the broker consumed them; in half of the runs the broker reuses an identifier as soon as its transaction is complete and keeps an in-flight window of 1-3 messages, in half of those storage errors are concentrated on the late operations of a cycle; oracles: no return of a message while its marker is stored, no second return of a message within one process, a message confirmed with PUBREC was returned at some time (a leftover reception record must not swallow the next message with that identifier), every broker-side handshake completes in the quiescence phase; family restarts: process stops between delivery, reception record and PUBREC (2-3 incarnations), a message whose PUBREC an earlier incarnation wrote is not returned again." + distinctRule + " non-trivial = a fault fired and the broker retransmitted an exactly-once PUBLISH",
+		Rule:        "seeded runs with 1-8 inbound messages (mostly exactly-once) from the reference broker, which retransmits PUBLISH (DUP) and PUBREL on reconnect; breaks after client acknowledgements were written but before the broker consumed them; in half of the runs the broker reuses an identifier as soon as its transaction is complete and keeps an in-flight window of 1-3 messages, in half of those storage errors are concentrated on the late operations of a cycle; oracles: no return of a message while its marker is stored, no second return of a message within one process, a message confirmed with PUBREC was returned at some time (a leftover reception record must not swallow the next message with that identifier), every broker-side handshake completes in the quiescence phase; family restarts: process stops between delivery, reception record and PUBREC (2-3 incarnations), a message whose PUBREC an earlier incarnation wrote is not returned again. family restarts-damaged-marker: process stops as in family restarts, and between the stop and the adoption 1-2 reception records of the image are altered in one byte or truncated to at least one byte (the key stays: the mere existence of a record marks the reception); a message whose PUBREC an earlier incarnation had written is not returned again." + distinctRule + " non-trivial = a fault fired and the broker retransmitted an exactly-once PUBLISH",
 		Assumptions: flowAssumptions,
-		Probes:      []string{"q2_retransmission_seen", "q2_duplicate_completed", "unread_input_lost", "identifier_reused", "disk_err_before_D"},
+		Probes:      []string{"q2_retransmission_seen", "q2_duplicate_completed", "unread_input_lost", "identifier_reused", "disk_err_before_D", "damage_alter_marker", "damage_truncate_marker"},
 		QuickS:      20, ThoroughS: 300,
 	},
 	"C06": {
@@ -138,7 +138,7 @@ var props = map[string]propMeta{
 	},
 	"C16": {
 		Level:       "exploration",
-		Rule:        "seeded: a flow run (publishers of both levels, inbound exactly-once traffic) is stopped at a drawn step; 1-3 records of the image (outbound PUBLISH, PUBREL, inbound marker, client identifier) are altered in one byte, truncated or removed and 0-2 stray entries added (foreign key ranges, garbage, valid-looking records); AdoptSession, then a fault-free incarnation with new publishes against the same broker model. family damage-then-restart: damage of outbound records, adoption, more publishes up to small maxima with the final acknowledgements withheld, another stop and a second adoption on the image that still holds what the first one abandoned. Oracles: no fatal (of any adoption), no panic, at least one warning per unusable record, the client comes online and completes what it resumed and what is new within the liveness bounds, resent packets equal genuinely saved records in their original order, no identifier collision." + distinctRule + " non-trivial = damage was applied and the session recovered",
+		Rule:        "seeded: a flow run (publishers of both levels, inbound exactly-once traffic) is stopped at a drawn step; 1-3 records of the image (outbound PUBLISH, PUBREL, inbound marker, client identifier) are altered in one byte, truncated or removed and 0-2 stray entries added (foreign key ranges, garbage, valid-looking records); AdoptSession, then a fault-free incarnation with new publishes against the same broker model. family damage-then-restart: damage of outbound records, adoption, more publishes up to small maxima with the final acknowledgements withheld, another stop and a second adoption on the image that still holds what the first one abandoned. family damage-faults: the same with connection and storage faults met by the adopted client (a connection that breaks during the resend of adopted records), liveness judged from the quiescence phase. Oracles: no fatal (of any adoption), no panic, at least one warning per unusable record, the client comes online and completes what it resumed and what is new within the liveness bounds, resent packets equal genuinely saved records in their original order, no identifier collision." + distinctRule + " non-trivial = damage was applied and the session recovered",
 		Assumptions: flowAssumptions,
 		Probes:      []string{"damaged_session_recovered", "damage_alter_publish", "damage_remove_publish", "damage_alter_pubrel", "damage_alter_marker", "damage_remove_marker", "damage_alter_clientid", "damage_stray_stray"},
 		QuickS:      25, ThoroughS: 400,
